@@ -38,6 +38,8 @@ DEFAULT = {
                                # of its own, derived from the model, so that the main stream of the generator is unchanged)
     "p_beta_outside": 0.12,    # beta outside [0, 1] (5/4, 3/2, 2, -1/2): legal in a finite-horizon problem; the continuation value is
                                # weighted by exactly the number in params (own random stream, see p_default_params)
+    "p_aux_chain": 0.25,       # an auxiliary function of an auxiliary function: next_w takes net(inc, kn2) = inc - kn2 instead of inc
+                               # (two levels in the function DAG, each level with an own parameter; own random stream)
     "pad_states": 0,           # number of extra discrete states x0, x1, ... with one (sometimes two) labels and identity transitions:
                                # models with many variables (17+) at the cost of few cells
     "p_int_arith": 0.3,        # a payoff term built by INTEGER arithmetic on the restricted variables that goes negative: c * (a - r - 1)
@@ -107,6 +109,9 @@ def rand_model(rng: random.Random, over=None):  # noqa: C901, PLR0912, PLR0915
             r2 = random.Random(repr(sorted((f["name"], tuple(f["args"])) for f in m["funcs"])) + repr(m["T"]))
             if r2.random() < P["p_default_params"]:
                 default_params(r2, m)
+            r4 = random.Random("chain" + repr(sorted((f["name"], tuple(f["args"])) for f in m["funcs"])) + repr(m["T"]))
+            if r4.random() < P["p_aux_chain"]:
+                aux_chain(r4, m)
             r3 = random.Random("beta" + repr(sorted((f["name"], tuple(f["args"])) for f in m["funcs"])) + repr(m["T"]))
             if (r3.random() < P["p_beta_outside"] and not P["inexact"] and 2 <= m["T"] <= 4
                     and not m["meta"]["feat"].get("near_ties")):      # (near-tie levels times 4^T would leave TLC's integers)
@@ -566,6 +571,31 @@ def _rand_model_once(rng, P):  # noqa: C901, PLR0912, PLR0915
             "meta": {"feat": feat, "admitted": admitted, "fstates": (["r"] + (["q"] if has_q else [])) if has_r else [],
                      "inexact": bool(P["inexact"] or log_w),
                      **({"x64": True, "tol": [0, 1]} if feat.get("x64_ties") else {})}}
+
+
+def _subst_var(e, old, new):
+    if e[0] == "var":
+        return ["var", new] if e[1] == old else e
+    if e[0] == "const":
+        return e
+    if e[0] == "tab":
+        return ["tab", [new if x == old else x for x in e[1]], e[2]]
+    return [e[0], *[_subst_var(x, old, new) if isinstance(x, list) else x for x in e[1:]]]
+
+
+def aux_chain(rng, m):
+    """next_w reads `net' instead of `inc', where net(inc, kn2) = inc - kn2 is an auxiliary function of the auxiliary function."""
+    nw = next((f for f in m["funcs"] if f["name"] == "next_w"), None)
+    if nw is None or "inc" not in nw["args"] or any(f["name"] == "net" for f in m["funcs"]):
+        return m
+    nw["args"] = ["net" if a == "inc" else a for a in nw["args"]]
+    nw["expr"] = _subst_var(nw["expr"], "inc", "net")
+    args = ["inc", "kn2"]
+    rng.shuffle(args)
+    m["funcs"].insert(rng.randrange(len(m["funcs"]) + 1), mkfunc("net", "aux", args, ["sub", var("inc"), var("kn2")]))
+    m["params"]["net"] = {"kn2": q(rng.choice([F(1, 2), 1, F(-1, 2)]))}
+    m.setdefault("meta", {}).setdefault("feat", {})["aux_of_aux"] = True
+    return m
 
 
 def default_params(rng, m):
